@@ -1,5 +1,6 @@
 import VibeProof.Model.Temporal
 import VibeProof.Lemmas.TemporalNum
+import VibeProof.Lemmas.TemporalTs
 /-
 C22 — temporal values round-trip through text and parsing is total.
 Model: Model/Temporal.lean (the repaired parsers: de528fa2, 0606ba2f, d3639607).
@@ -252,3 +253,121 @@ theorem C22_date_roundtrip (y : Int) (m dd : Nat) (d : Date) (hy : i32Min ≤ y 
 
 example : Date.new (-5) 1 1 = .ok ⟨-5, 1, 1⟩ ∧ i32Min ≤ (-5 : Int) ∧ (-5 : Int) ≤ i32Max :=
   ⟨rfl, by decide, by decide⟩
+
+theorem pad9_trim (l : Bytes) (hlen : l.length = 9) (hall : ∀ b ∈ l, isDigit b = true) :
+    padRight0Chars 9 (trimEnd0 l) = l := by
+  unfold padRight0Chars
+  rw [charCount_digits _ (trimEnd0_all _ hall), ← hlen]
+  exact trimEnd0_pad l
+
+theorem getTo9 (l : Bytes) (hlen : l.length = 9) : getTo 9 l = some l := by
+  unfold getTo isBoundary
+  simp [hlen]
+  rw [← hlen]; exact List.take_length
+
+theorem parseNanos_frac (n : Nat) (hn : n ≤ 999999999) :
+    parseNanos (trimEnd0 (fmtNat 9 n)) = .ok n := by
+  have hlen : (fmtNat 9 n).length = 9 := fmtNat_length 8 n (by omega)
+  unfold parseNanos
+  rw [pad9_trim _ hlen (fmtNat_all 9 n), getTo9 _ hlen]
+  simp only []
+  rw [show parseU32 (fmtNat 9 n) = some n from parseUnsigned_fmtNat _ 9 n (by omega)]
+  rfl
+
+/-- TIME: every value accepted by `Time::new` prints to a text that parses back to it -/
+theorem C22_time_roundtrip (h mi s n : Nat) (t : Time) (hnew : Time.new h mi s n = .ok t) :
+    Time.fromStr t.display = .ok t := by
+  have hv : h ≤ 23 ∧ mi ≤ 59 ∧ s ≤ 59 ∧ n ≤ 999999999 ∧ t = ⟨h, mi, s, n⟩ := by
+    unfold Time.new at hnew
+    repeat (split at hnew; · simp at hnew)
+    simp at hnew
+    refine ⟨by omega, by omega, by omega, by omega, hnew.symm⟩
+  obtain ⟨hh, hmi, hs, hn, rfl⟩ := hv
+  have h46 : isDigit 46 = false := by decide
+  have h58 : (58 : UInt8) ≠ 46 := by decide
+  have hmsAll : ∀ b ∈ fmtNat 2 h ++ [58] ++ fmtNat 2 mi ++ [58] ++ fmtNat 2 s, b ≠ 46 := by
+    intro b hb
+    simp only [List.mem_append, List.mem_singleton] at hb
+    rcases hb with (((hb | hb) | hb) | hb) | hb
+    · exact digits_ne 46 h46 _ (fmtNat_all 2 h) b hb
+    · rw [hb]; exact h58
+    · exact digits_ne 46 h46 _ (fmtNat_all 2 mi) b hb
+    · rw [hb]; exact h58
+    · exact digits_ne 46 h46 _ (fmtNat_all 2 s) b hb
+  have hparts := splitOn_hms _ _ _ (fmtNat_all 2 h) (fmtNat_all 2 mi) (fmtNat_all 2 s)
+  have pH : parseU8 (fmtNat 2 h) = some h := parseUnsigned_fmtNat 255 2 h (by omega)
+  have pM : parseU8 (fmtNat 2 mi) = some mi := parseUnsigned_fmtNat 255 2 mi (by omega)
+  have pS : parseU8 (fmtNat 2 s) = some s := parseUnsigned_fmtNat 255 2 s (by omega)
+  have hnewok : Time.new h mi s n = .ok ⟨h, mi, s, n⟩ := hnew
+  unfold Time.fromStr Time.display
+  by_cases hz : n = 0
+  · subst hz
+    simp only [if_true]
+    rw [splitFirst_none 46 _ hmsAll]
+    simp only [hparts, List.length_cons, List.length_nil, idx, bne_self_eq_false, Bool.false_eq_true,
+      if_false, List.getElem?_cons_zero, List.getElem?_cons_succ, bind, Except.bind, pH, pM, pS, orErr,
+      pure, Except.pure]
+    exact hnewok
+  · simp only [hz, if_false]
+    have e : fmtNat 2 h ++ [58] ++ fmtNat 2 mi ++ [58] ++ fmtNat 2 s ++ [46] ++ trimEnd0 (fmtNat 9 n)
+        = (fmtNat 2 h ++ [58] ++ fmtNat 2 mi ++ [58] ++ fmtNat 2 s) ++ 46 :: trimEnd0 (fmtNat 9 n) := by
+      simp
+    rw [e, splitFirst_app 46 _ _ hmsAll]
+    simp only [hparts, List.length_cons, List.length_nil, idx, bne_self_eq_false, Bool.false_eq_true,
+      if_false, List.getElem?_cons_zero, List.getElem?_cons_succ, bind, Except.bind, pH, pM, pS, orErr,
+      parseNanos_frac n hn]
+    exact hnewok
+
+example : Time.new 23 59 59 120000000 = .ok ⟨23, 59, 59, 120000000⟩ := rfl
+
+/-- TIMESTAMP: a timestamp built from a valid date (any `i32` year) and a valid time prints to
+    a text that parses back to the same value -/
+theorem C22_timestamp_roundtrip (y : Int) (m dd h mi s n : Nat) (d : Date) (t : Time)
+    (hy : i32Min ≤ y ∧ y ≤ i32Max) (hd : Date.new y m dd = .ok d) (ht : Time.new h mi s n = .ok t) :
+    Timestamp.fromStr (Timestamp.display ⟨d, t⟩) = .ok ⟨d, t⟩ := by
+  have hdate := C22_date_roundtrip y m dd d hy hd
+  have htime := C22_time_roundtrip h mi s n t ht
+  have hDp := date_display_plain d
+  have hTt := time_display_tplain t
+  have hTp : ∀ b ∈ t.display, plain b = true := fun b hb => tplain_plain (hTt b hb)
+  have hTlen := time_display_length t
+  have hTne : t.display ≠ [] := by intro e; rw [e] at hTlen; simp at hTlen
+  have hDne : d.display ≠ [] := by simp [Date.display]
+  -- first byte of the text, last byte of the text
+  obtain ⟨b, r, hbr⟩ : ∃ b r, d.display = b :: r := by
+    cases hh : d.display with
+    | nil => exact absurd hh hDne
+    | cons b r => exact ⟨b, r, rfl⟩
+  obtain ⟨c, r', hcr⟩ : ∃ c r', t.display.reverse = c :: r' := by
+    cases hh : t.display.reverse with
+    | nil => simp at hh; exact absurd hh hTne
+    | cons c r' => exact ⟨c, r', rfl⟩
+  have hb : plain b = true := hDp b (by rw [hbr]; simp)
+  have hcT : tplain c = true := hTt c (by rw [← List.mem_reverse, hcr]; simp)
+  have hs : d.display ++ [32] ++ t.display = b :: (r ++ [32] ++ t.display) := by rw [hbr]; simp
+  have hrev : (d.display ++ [32] ++ t.display).reverse = c :: (r' ++ 32 :: d.display.reverse) := by
+    simp [hcr]
+  unfold Timestamp.fromStr Timestamp.display
+  rw [trim_plain _ _ _ b c hs hrev hb (tplain_plain hcT)]
+  have hstrip : stripTimezoneSuffix (d.display ++ [32] ++ t.display) = .ok (d.display ++ [32] ++ t.display) := by
+    have := strip_display (fmtInt 4 d.year) (fmtNat 2 d.month) (fmtNat 2 d.day) t.display
+      (r' ++ 32 :: d.display.reverse) c (fmtNat_all 2 _) hTt (fmtNat_length_ge 2 _) hTlen
+      (by simpa [Date.display] using hrev) hcT
+    simpa [Date.display] using this
+  rw [hstrip]
+  simp only [bind, Except.bind]
+  have h84 : ∀ x ∈ d.display ++ [32] ++ t.display, x ≠ 84 := by
+    apply plain_ne84
+    intro x hx
+    simp only [List.mem_append, List.mem_singleton] at hx
+    rcases hx with (hx | hx) | hx
+    · exact Or.inl (hDp x hx)
+    · exact Or.inr hx
+    · exact Or.inl (hTp x hx)
+  rw [splitFirst_none 84 _ h84]
+  simp only []
+  rw [splitWhitespace_two _ _ hDp hTp hDne hTne]
+  simp [tsFromParts, idx, bind, Except.bind, hdate, htime, pure, Except.pure]
+
+example : Date.new 2147483647 12 31 = .ok ⟨2147483647, 12, 31⟩ ∧
+    Time.new 23 59 59 999999999 = .ok ⟨23, 59, 59, 999999999⟩ := ⟨rfl, rfl⟩
